@@ -14,6 +14,7 @@ package kms
 //@   modifies ctried(this)
 //@   ensures ctried(this) == old(ctried(this)) + 1
 //@   ensures err == nil ==> result != nil
+//@   ghost ensures err == nil ==> plain(arr(result.Plaintext))
 //@ iface AWSClient.GenerateDataKey
 //@   names ctx, params, optFns
 //@   modifies cgen(this)
@@ -35,6 +36,7 @@ package kms
 //@   ensures ctried(r.Client) == old(ctried(r.Client)) + 1
 //@   ensures err == nil ==> resp != nil
 //@   ensures [C17:regional-decrypt-sends-the-given-blob] ncalls(Decrypt) == 1 && arg(Decrypt, 1, params).CiphertextBlob == keyBytes
+//@   ensures [C03,C17:decrypted-data-key-is-key-material] err == nil ==> plain(arr(resp.Plaintext))
 //@ func (*regionalClient).GenerateDataKey
 //@   names r, ctx
 //@   facet C17
@@ -72,7 +74,7 @@ package kms
 
 //@ func (*AWSKMS).DecryptKey
 //@   names a, ctx, data
-//@   facet C17, C10
+//@   facet C17, C10, C03
 //@   ensures [C10:kms-data-key-plaintext-wiped] retis(DecryptKey, 1, 1, nil) ==> (forall i int :: 0 <= i && i < len(ret(DecryptKey, 1, 0).Plaintext) ==> ret(DecryptKey, 1, 0).Plaintext[i] == 0)
 //@   safety C17
 //@   opt no-frame
